@@ -397,8 +397,10 @@ func (r *tileHashReader) ReadHashes(indexes []int64) ([]Hash, error) {
 		return nil, fmt.Errorf("downloaded inconsistent tile")
 	}
 
-	// Authenticate full tiles against their parents.
-	for i := len(stx); i < len(tiles); i++ {
+	// Authenticate the remaining full tiles against their parents.
+	// (Several tree hashes may share a tile, so there can be fewer
+	// than len(stx) tiles authenticated above.)
+	for i := stxTileOrder[len(stx)-1] + 1; i < len(tiles); i++ {
 		tile := tiles[i]
 		p := tileParent(tile, 1, r.tree.N)
 		j, ok := tileOrder[p]
